@@ -325,3 +325,12 @@ Check (C05_tr_owed_not_answered :
 Check (C05_tr_no_answer_without_call :
   forall t s g h c,
   Tcp.Once.treachH t s g h -> ~ In c (Tcp.Model.g_used g) -> Tcp.Once.cnt (Tcp.Once.open_ans c) h = 0%nat /\ Tcp.Once.cnt (Tcp.Once.neg_ans c) h = 0%nat).
+Check (C05_tr_refused_dial_no_effect :
+  forall t s g c a,
+  Tcp.Variants.expect_of t a = None ->
+  Tcp.Variants.tstep t s (Tcp.Variants.XDial c a) = (s, [Tcp.Model.ORet false]) /\
+  Tcp.Model.gstep (Tcp.Variants.ev_of t (Tcp.Variants.XDial c a)) (snd (Tcp.Variants.tstep t s (Tcp.Variants.XDial c a))) g = g).
+Check (C05_tr_open_unparsable_fails :
+  forall t s g c l e,
+  Tcp.VariantTheorems.treach t s g -> Tcp.Model.caller_ok g (Tcp.Variants.ev_of t (Tcp.Variants.XOpen c l)) = true -> Tcp.Variants.attempts_of t l = [] -> Tcp.Model.polls e = true ->
+  In (Tcp.Model.OEv (Tcp.Model.TOpenFailure c)) (snd (Tcp.Variants.tstep t (fst (Tcp.Variants.tstep t s (Tcp.Variants.XOpen c l))) (Tcp.Variants.XEv e)))).
